@@ -249,7 +249,32 @@ class Tree_add_child(Contract):
         cx.ghost["parents0"] = parents_array(s.fields["_children"])
         return {"self": s, "child": c}
 
+    # call-site direction, for receivers whose children are a sequence of identities (contracts/fuzz.py): what the
+    # verified postconditions state -- one more child, it is the last one, it points to the receiver, caches cleared
+    def effects(self, cx, a):
+        s, c = a["self"], a["child"]
+        kids = s.fields.get("_children")
+        if not (isinstance(kids, SList) and "seq" in kids.ghost and "seq_make" in kids.ghost and isinstance(c, SObj) and c.ident is not None):
+            from pyvc.ctx import Unsupported
+            raise Unsupported("add_child at a call site: receiver's children are not a sequence of identities")
+        cx.log_write(s, "_children")
+        new = kids.ghost["seq_make"](z3.Concat(kids.ghost["seq"], z3.Unit(c.ident)))
+        new.ghost["last_added"] = c
+        new.ghost["added"] = list(kids.ghost.get("added", [])) + [c]
+        s.fields["_children"] = new
+        cx.log_write(c, "_parent")
+        c.fields["_parent"] = s
+        cx.log_write(s, "_size")
+        s.fields["_size"] = cx.int("size_after_add", lo=1)
+        s.fields["hash_cache"] = None
+        s.fields["@invalidated"] = True
+
+    def fresh_result(self, cx, a):
+        return None
+
     def ensures(self, cx, a, r):
+        if cx.ghost.get("call_site"):
+            return []
         s, c = a["self"], a["child"]
         kids = s.fields["_children"]
         n0 = cx.ghost["n0"]
@@ -284,7 +309,25 @@ class _Setter(Contract):
         cx.assume_note("assert isinstance(symbol, (Terminal, NonTerminal, Slice)) is a type check on the argument")
         return {"self": s, name: v}
 
+    # call-site direction: the verified postconditions (field stored, receiver and ancestors invalidated)
+    def effects(self, cx, a):
+        s = a["self"]
+        name = {"_symbol": "symbol", "_sender": "sender", "_recipient": "recipient"}[self.field]
+        cx.log_write(s, self.field)
+        s.fields[self.field] = a[name]
+        s.fields["hash_cache"] = None
+        s.fields["@invalidated"] = True
+        p = s.fields.get("_parent")
+        if isinstance(p, SObj):
+            p.fields["hash_cache"] = None
+            p.fields["@invalidated"] = True
+
+    def fresh_result(self, cx, a):
+        return None
+
     def ensures(self, cx, a, r):
+        if cx.ghost.get("call_site"):
+            return []
         s = a["self"]
         out = [("field_stored", z3.BoolVal(s.fields[self.field] is cx.ghost["new_value"])),
                ("receiver_invalidated", z3.BoolVal(invalidated(s)))]
